@@ -122,11 +122,15 @@ def run(plan, choices, keep_log=False):
                         break
         except SimAbort as e:
             violation = {"class": e.verdict, "call": -1, "detail": "while creating the map"}
-        finally:
+        # the caller drops its reference and the interpreter exits
+        pm = None
+        if violation is None:
             try:
-                del pm
-            except Exception:
-                pass
+                sim.interpreter_exit()
+            except SimAbort:
+                violation = {"class": "EXIT_HANG", "call": len(verdicts),
+                             "detail": "the calling process cannot exit: a non-daemonic "
+                                       "worker is still alive and is joined for ever"}
     if sim.harness_error is not None:
         raise core.HarnessError(str(sim.harness_error))
     if sim.stats["leaked_threads"]:
@@ -162,3 +166,84 @@ def run_index(verif_seed, index, keep_log=False):
 def run_replay(rec, keep_log=False):
     ch = core.Choices(given=rec["choices"])
     return run(rec["plan"], ch, keep_log=keep_log)
+
+
+# ------------------------------------------------------------------ minimisation
+def _renumber(plan):
+    for call in plan["calls"]:
+        for k, t in enumerate(call["tasks"]):
+            t[0] = k
+    return plan
+
+
+def _copy(plan):
+    import copy
+
+    return copy.deepcopy(plan)
+
+
+def candidates(cur):
+    """Simpler (plan, choices) pairs, simplest reductions first."""
+    from .minimize import shrink_choices, shrink_list
+
+    plan, choices = cur
+    # fewer calls
+    for calls in shrink_list(plan["calls"], min_len=1):
+        p = _copy(plan)
+        p["calls"] = _copy(calls)
+        yield (p, choices)
+    # fewer tasks per call
+    for ci, call in enumerate(plan["calls"]):
+        for tasks in shrink_list(call["tasks"], min_len=0):
+            p = _copy(plan)
+            p["calls"][ci]["tasks"] = _copy(tasks)
+            yield (_renumber(p), choices)
+    # fewer / simpler faults
+    for ci, call in enumerate(plan["calls"]):
+        for ti, t in enumerate(call["tasks"]):
+            if t[2] != "ok":
+                p = _copy(plan)
+                p["calls"][ci]["tasks"][ti][2] = "ok"
+                yield (p, choices)
+                if t[2] != "exc":
+                    p = _copy(plan)
+                    p["calls"][ci]["tasks"][ti][2] = "exc"
+                    yield (p, choices)
+    # fewer workers
+    if plan["np"] > 2:
+        p = _copy(plan)
+        p["np"] = plan["np"] - 1
+        yield (p, choices)
+    for call in plan["calls"]:
+        if call["scale"] != 1:
+            p = _copy(plan)
+            for c in p["calls"]:
+                c["scale"] = 1
+            yield (p, choices)
+            break
+    # simpler schedule
+    for ch in shrink_choices(choices):
+        yield (plan, ch)
+
+
+def minimise(rec, max_evals=600, max_seconds=30.0):
+    """Shrink a violating record; the violation class must persist."""
+    from .minimize import minimize
+
+    cls = rec["violation"]["class"]
+
+    def test(cand):
+        r = run(cand[0], core.Choices(given=cand[1]))
+        return r["violation"] is not None and r["violation"]["class"] == cls
+
+    (plan, choices), evals = minimize((rec["plan"], rec["choices"]), candidates, test,
+                                      max_evals, max_seconds)
+    out = run(plan, core.Choices(given=choices), keep_log=True)
+    out["minimised_from"] = {"tasks": sum(len(c["tasks"]) for c in rec["plan"]["calls"]),
+                             "calls": len(rec["plan"]["calls"]), "np": rec["plan"]["np"],
+                             "choices": len(rec["choices"]), "evals": evals}
+    # strip trailing zeros from the executed trace: replay treats missing as 0
+    tr = out["choices"]
+    while tr and tr[-1] == 0:
+        tr.pop()
+    return out
